@@ -44,6 +44,7 @@ class Verifier:
         self.fs_model = None
         self.module_globals = {}
         self.global_model = None
+        self.log_domain = False
         self._spec_cache = {}
         self._loop_ord = {}
         self.covers = set()
@@ -86,6 +87,7 @@ class Verifier:
     # ------------------------------------------------------------------
     def verify_function(self, con):
         res = FuncResult(con)
+        self.log_domain = bool(con.extra.get("log_domain"))
         self.stats = E.Stats()
         res.stats = self.stats
         t0 = time.time()
@@ -203,6 +205,11 @@ class Verifier:
             env[name] = I.eval_spec(e, env)
         for e in con.requires:
             I.assume(bz(I.eval_spec(e, env)))
+        for anchor, _callee, hexpr in con.hints:
+            if anchor == "at_start":
+                h = I.eval_spec(hexpr, env)
+                if h is not None and not isinstance(h, bool):
+                    I.assume(bz(h))
         I.pre_pc_len = len(I.pc)
         if self._vacuity_pending:
             self._vacuity_pending = False
@@ -230,7 +237,17 @@ class Verifier:
         I.cur_line = fn.end_lineno
         post_env = dict(entry_env)
         post_env["__module__"] = con.file
+        for anchor, _callee, hexpr in con.hints:
+            if anchor == "at_end":
+                h = I.eval_spec(hexpr, post_env)
+                if h is not None and not isinstance(h, bool):
+                    I.assume(bz(h))
         for j, e in enumerate(con.ensures):
+            for anchor, which, hexpr in con.hints:
+                if anchor == "before_ensures" and which == j:
+                    h = I.eval_spec(hexpr, post_env)
+                    if h is not None and not isinstance(h, bool):
+                        I.assume(bz(h))
             I.oblige(f"ensures[{j}]", I.eval_spec(e, post_env), "ensures",
                      fn.lineno)
         for exc, cond in con.raises.items():
@@ -253,14 +270,19 @@ class Verifier:
         import re
         if where.startswith("call:"):
             if where not in I.ghost:
-                raise SpecError(f"{con.func}: ghost {where} unbound on this "
-                                f"path")
+                def _unbound(I2, *a, where=where):
+                    raise SpecError(f"{con.func}: ghost {where} is not "
+                                    f"bound on this path")
+                return E.LibFunc(where, _unbound)
             return I.ghost[where]
         m = re.match(r"(\w+)(?:\[(\d+)\])?\.(\w+)$", where)
         key, idx, field = m.group(1), m.group(2), m.group(3)
-        if key not in I.ghost:
-            raise SpecError(f"{con.func}: ghost {where} unbound on this "
-                            f"path")
+        if key not in I.ghost or I.ghost[key] is None:
+            def _unbound(I2, *a, where=where):
+                # not bound on this path: only read under a guard that is
+                # false here, so an arbitrary value will do
+                return I2.fresh_const("unbound_ghost", z3.IntSort())
+            return E.LibFunc(where, _unbound)
         g = I.ghost[key]
         if idx is not None:
             g = g[int(idx)]
@@ -287,7 +309,7 @@ class Verifier:
 
 
 # ----------------------------------------------------------------------
-def discharge(obls, timeout_ms=10000, use_cvc5=False):
+def discharge(obls, timeout_ms=10000, use_cvc5=False, refute=True):
     """Decide every obligation: unsat(hyps & !goal) = discharged."""
     for o in obls:
         t0 = time.time()
@@ -295,12 +317,41 @@ def discharge(obls, timeout_ms=10000, use_cvc5=False):
         if z3.is_true(z3.simplify(g)):
             o.status, o.solver, o.time = "discharged", "trivial", 0.0
             continue
-        s = z3.Solver()
-        s.set("timeout", timeout_ms)
-        for h in o.hyps:
-            s.add(h)
-        s.add(z3.Not(g))
-        r = s.check()
+        # portfolio: (1) hypotheses pruned of the log-domain (nonlinear)
+        # facts when the goal does not mention them, (2) E-matching only,
+        # (3) the full query.  Dropping hypotheses is sound for `unsat`.
+        r = None
+        hyps = o.hyps
+        if not _mentions(g, _LOGSYMS):
+            pruned = [h for h in o.hyps if not _mentions(h, _LOGSYMS)]
+            if len(pruned) < len(o.hyps):
+                for cfg in ({"smt.mbqi": False}, {}):
+                    s = z3.Solver()
+                    for k_, v_ in cfg.items():
+                        s.set(k_, v_)
+                    s.set("timeout", min(8000 if cfg else 3000, timeout_ms))
+                    for h in pruned:
+                        s.add(h)
+                    s.add(z3.Not(g))
+                    if s.check() == z3.unsat:
+                        r = z3.unsat
+                        break
+        if r is None:
+            s = z3.Solver()
+            s.set("smt.mbqi", False)
+            s.set("timeout", min(6000, timeout_ms))
+            for h in o.hyps:
+                s.add(h)
+            s.add(z3.Not(g))
+            if s.check() == z3.unsat:
+                r = z3.unsat
+        if r is None:
+            s = z3.Solver()
+            s.set("timeout", timeout_ms)
+            for h in o.hyps:
+                s.add(h)
+            s.add(z3.Not(g))
+            r = s.check()
         o.solver = "z3"
         if r == z3.unsat:
             o.status = "discharged"
@@ -335,7 +386,25 @@ def discharge(obls, timeout_ms=10000, use_cvc5=False):
                     o.status, o.solver = "discharged", "cvc5"
                 elif r2 == "sat":
                     o.status, o.solver = "refuted", "cvc5"
-            if o.status == "unknown":
+            if o.status == "unknown" and refute:
+                try:
+                    fs = _inst_real_axioms(list(o.hyps) + [z3.Not(g)])
+                    if not any(E._has_quant(f) for f in fs):
+                        s2 = z3.Solver()
+                        s2.set("timeout", min(timeout_ms, 20000))
+                        for f in fs:
+                            s2.add(f)
+                        r3 = s2.check()
+                        if r3 == z3.sat:
+                            o.status = "refuted"
+                            o.solver = "z3-ground-exp-instances"
+                            o.model = s2.model()
+                        elif r3 == z3.unsat:
+                            o.status = "discharged"
+                            o.solver = "z3-ground-exp-instances"
+                except z3.Z3Exception:
+                    pass
+            if o.status == "unknown" and refute:
                 for N in (2, 3):
                     try:
                         m = bounded_refute(o, N, min(timeout_ms, 20000))
@@ -351,7 +420,12 @@ def discharge(obls, timeout_ms=10000, use_cvc5=False):
 
 
 def check_vacuity(pc):
-    """requires (+ type assumptions) must be satisfiable."""
+    """requires (+ type assumptions) must be satisfiable.  The global
+    background axioms (exp facts) are sound facts of the reals and are left
+    out: they only slow model construction down."""
+    from .values import BACKGROUND
+    bg = {f.get_id() for f in BACKGROUND if z3.is_quantifier(f)}
+    pc = [f for f in pc if f.get_id() not in bg]
     s = z3.Solver()
     s.set("timeout", 4000)
     for f in pc:
@@ -371,6 +445,33 @@ def check_vacuity(pc):
     return "sat(bounded-instantiation)" if r == z3.sat else \
         ("unsat(bounded-instantiation: no witness with lengths<=2)"
          if r == z3.unsat else "unknown")
+
+
+_LOGSYMS = ("EXPF", "LOGF", "SUMA")
+
+
+def _mentions(f, names, _cache={}):
+    k = f.get_id()
+    if k in _cache:
+        return _cache[k]
+    seen = set()
+    stack = [f]
+    found = False
+    while stack:
+        t = stack.pop()
+        if t.get_id() in seen:
+            continue
+        seen.add(t.get_id())
+        if z3.is_quantifier(t):
+            stack.append(t.body())
+            continue
+        if z3.is_app(t):
+            if t.decl().name() in names:
+                found = True
+                break
+            stack.extend(t.children())
+    _cache[k] = found
+    return found
 
 
 def cvc5_check(smt2, timeout_ms):
@@ -454,15 +555,92 @@ def _len_consts(fs):
     return list(out.values())
 
 
+def _ground_apps(fs, name):
+    out = {}
+    seen = set()
+    stack = list(fs)
+    while stack:
+        t = stack.pop()
+        if t.get_id() in seen:
+            continue
+        seen.add(t.get_id())
+        if z3.is_quantifier(t):
+            continue
+        if z3.is_app(t):
+            if t.decl().name() == name:
+                out[t.get_id()] = t
+            stack.extend(t.children())
+    return list(out.values())
+
+
+def _inst_real_axioms(fs):
+    """Replace the pointwise background axioms (forall t. P(EXPF(t), t)) by
+    their instances at the ground EXPF terms of the query.  The axioms are
+    pointwise, so any model of the instances extends to a model of the
+    axioms."""
+    from .values import BACKGROUND
+    bg = {f.get_id(): f for f in BACKGROUND if z3.is_quantifier(f)}
+    rest = [f for f in fs if f.get_id() not in bg]
+    if len(rest) == len(fs):
+        return fs
+    for _round in range(3):
+        apps = _ground_apps(rest, "EXPF")
+        new = []
+        for ax in bg.values():
+            for a in apps:
+                new.append(z3.substitute_vars(ax.body(), a.arg(0)))
+        before = len(_ground_apps(rest, "EXPF"))
+        rest = [f for f in rest] + new
+        if len(_ground_apps(rest, "EXPF")) == before:
+            break
+    return rest
+
+
+def _finite_sums(fs, N):
+    """SUMA(lam, lo, hi) -> explicit finite sum over 0..N+2 (valid when all
+    sequence lengths are <= N, which bounded_refute imposes)."""
+    apps = _ground_apps(fs, "SUMA")
+    if not apps:
+        return fs
+    pairs = []
+    for a in apps:
+        lam, lo, hi = a.children()
+        terms = []
+        for k in range(0, N + 3):
+            kv = z3.IntVal(k)
+            terms.append(z3.If(z3.And(lo <= kv, kv < hi),
+                               z3.Select(lam, kv), z3.RealVal(0)))
+        pairs.append((a, z3.Sum(*terms) if len(terms) > 1 else terms[0]))
+    out = [z3.simplify(z3.substitute(f, *pairs)) for f in fs]
+    extra = []
+    for a in apps:
+        lam, lo, hi = a.children()
+        extra.append(z3.And(lo >= 0, hi <= N + 3))
+    return out + extra
+
+
 def bounded_refute(o, N=3, timeout_ms=20000):
-    fs = list(o.hyps) + [z3.Not(o.goal)]
-    s = z3.Solver()
-    s.set("timeout", timeout_ms)
-    for ln in _len_consts(fs):
-        s.add(ln <= N)
-    for f in fs:
-        s.add(_expand(f, 1, N, {}))
-    r = s.check()
-    if r == z3.sat:
-        return s.model()
+    from .values import BACKGROUND
+    bgq = [f for f in BACKGROUND if z3.is_quantifier(f)]
+    bgid = {f.get_id() for f in bgq}
+    fs = [f for f in list(o.hyps) + [z3.Not(o.goal)]
+          if f.get_id() not in bgid]
+    fs = _finite_sums(fs, N)
+    fs = _inst_real_axioms(fs + bgq)
+    lens = _len_consts(fs)
+    ex = [_expand(f, 1, N, {}) for f in fs]
+    # first with every length pinned to one small value (fast), then <= N
+    attempts = [[ln == v for ln in lens] for v in range(0, N + 1)] if lens \
+        else []
+    attempts.append([ln <= N for ln in lens])
+    for k_, extra in enumerate(attempts):
+        s = z3.Solver()
+        s.set("timeout", timeout_ms if k_ == len(attempts) - 1
+              else min(timeout_ms, 5000))
+        for c in extra:
+            s.add(c)
+        for f in ex:
+            s.add(f)
+        if s.check() == z3.sat:
+            return s.model()
     return None
